@@ -128,8 +128,8 @@ def schemata():
         rule(part, 's(X) :- d(X), not &tel { < -p(X) }.\n-p(X) :- q(X), not a.')
     # atoms with string / tuple / function arguments inside formulas; a body formula without temporal operator means its atom, so the instances may be
     # written with plain literals (a reference that does not go through the theory at all)
-    # (strings with escape sequences: the theory term of a string is its quoted, escaped text)
-    vals = ['""', '"a"', '(1,2)', 'f(1)', r'"a\"b"', r'"x\\y"', r'"l\nm"', r'g("\"")']
+    # (strings with escape sequences: the theory term of a string is its quoted, escaped text; negative numbers: a unary minus applied to a number)
+    vals = ['""', '"a"', '(1,2)', 'f(1)', r'"a\"b"', r'"x\\y"', r'"l\nm"', r'g("\"")', '-1', 'f(-2,"")']
     pre = ' '.join('e(%s).' % v for v in vals) + '\nqs(X) :- e(X), q(1), X != "a".\nqs("a") :- q(2).\n'
     for part in ('always', 'initial', 'dynamic'):
         S.append((part, pre + 's2(X) :- e(X), not not &tel { qs(X) }.', pre + '\n'.join('s2(%s) :- not not qs(%s).' % (v, v) for v in vals)))
